@@ -325,6 +325,7 @@ func newEvaluator(rule string) (ev *parser.Evaluator, err error, escaped string)
 				if e2, _ := parser.NewEvaluator(v); e2 != nil {
 					e2.Process(map[string]interface{}{})
 				}
+				noteDecoy(fmt.Sprintf("NewEvaluator(%q).Process({})", v))
 				if decoyTick%16 == 13 {
 					rules.Evaluate(v, map[string]interface{}{})
 					parser.Evaluate(v, map[string]interface{}{})
@@ -341,6 +342,7 @@ func newEvaluator(rule string) (ev *parser.Evaluator, err error, escaped string)
 		func() {
 			defer func() { recover() }()
 			saved := append([]int(nil), callLog...)
+			noteDecoy([]string{"Evaluate(`p9.q9.r9 eq 1`, {p9:{q9:5,k:7,x:1,y:\"s\"}})", "Evaluate(`q9 in [7, 1, 99999999999999999999]`, {q9:7})", "Evaluate(`q9 in [1.5, 1.0e999]`, {q9:1.5})"}[(decoyTick/8)%3])
 			switch (decoyTick / 8) % 3 {
 			case 0:
 				parser.Evaluate("p9.q9.r9 eq 1", map[string]interface{}{"p9": map[string]interface{}{"q9": 5, "k": 7, "x": 1, "y": "s"}})
@@ -396,6 +398,19 @@ func nearbyRuleText(rule string, tick int) string {
 		return string(b)
 	}
 	return rule
+}
+
+// recentDecoys: the last few things newEvaluator evaluated on the side (reported with a violation as part of its history)
+var recentDecoys []string
+
+func noteDecoy(s string) {
+	if len(s) > 300 {
+		s = s[:300] + "..."
+	}
+	recentDecoys = append(recentDecoys, s)
+	if len(recentDecoys) > 4 {
+		recentDecoys = recentDecoys[len(recentDecoys)-4:]
+	}
 }
 
 var decoyTick int
